@@ -168,13 +168,13 @@ func (a *analysis) lockOp(c *ast.CallExpr) (string, string) {
 	}
 	fk, _ := a.fieldKey(fsel)
 	var m string
-	switch fk {
-	case "Muxer.mutex", "muxerStream.mutex":
+	switch {
+	case fk == "Muxer.mutex" || a.t.muAlias[fk]:
 		m = "mu"
-	case "muxerServer.mutex":
+	case fk == "muxerServer.mutex":
 		m = "srv"
 	default:
-		a.fatal(c, "unknown mutex %s", fk)
+		a.fatal(c, "unknown mutex %s (not the muxer mutex, not an alias of it, not the server mutex)", fk)
 	}
 	switch sel.Sel.Name {
 	case "Lock":
@@ -368,9 +368,6 @@ func (a *analysis) walkComposite(e *ast.CompositeLit, st *State) {
 						c = Shared
 					}
 					a.addRow(kv.Key.Pos(), name+"."+fname, true, c, st)
-				}
-				if name == "muxerStream" && fname == "mutex" && a.src(kv.Value) != "&m.mutex" {
-					a.fatal(kv, "muxerStream.mutex is not the muxer mutex: %s", a.src(kv.Value))
 				}
 			} else if _, ok := a.t.walked[n.Obj().Pkg()]; ok {
 				a.storeFieldCls(name+"."+fname, a.classOf(kv.Value, st))
